@@ -91,7 +91,7 @@ func genC04(t *rapid.T) C04Case {
 	for i := 0; i < n; i++ {
 		var s h.Spec
 		cls := rapid.IntRange(0, 9).Draw(t, fmt.Sprintf("cls%d", i))
-		if cls <= 5 && !(big && i == 0) {
+		if cls <= 5 && !(big && (i == 0 || c.Op == "quo" || c.Op == "mul")) {
 			fin := h.Spec{F: "f", D: h.GenDigits(t, fmt.Sprintf("d%d", i), 40), E: int64(rapid.IntRange(-30, 30).Draw(t, fmt.Sprintf("e%d", i))), M: h.GenMode(t, fmt.Sprintf("m%d", i))}
 			fin.P = uint(len(fin.D)) + uint(rapid.IntRange(0, 5).Draw(t, fmt.Sprintf("p%d", i)))
 			s = classSpec(cls, fin)
@@ -102,6 +102,13 @@ func genC04(t *rapid.T) C04Case {
 			}
 		} else {
 			s = h.GenFinite(t, fmt.Sprintf("x%d", i), maxD)
+			if big && rapid.IntRange(0, 2).Draw(t, fmt.Sprintf("deep%d", i)) > 0 {
+				// deep code paths: Karatsuba (>= 30 words), recursive division (>= 100 words), pooled buffers
+				s.D = h.GenDigitsN(t, fmt.Sprintf("deepd%d", i), rapid.IntRange(600, maxD).Draw(t, fmt.Sprintf("deepn%d", i)))
+				if uint(len(s.D)) > s.P {
+					s.P = uint(len(s.D))
+				}
+			}
 			if moderate {
 				s.E = h.GenExpModerate(t, fmt.Sprintf("xe%d", i), 5000)
 				if lim := uint(len(s.D)) + 2000; s.P > lim {
